@@ -104,6 +104,13 @@ def run(ctx):
                         used_models.add(l[3][1])
                     for d in l[1]:
                         used_chars.update(d)
+        if impl is not None and len(text) < 6000 and res.evaluations % 3 == 0:
+            def again(text=text, cc=cc):
+                q = DecFileParser.from_string(text)
+                q.parse(include_ccdecays=cc)
+                return impl_tables(q)
+
+            res.remember({"text": text, "include_ccdecays": cc}, again, impl)
         if impl is not None:
             if n != len(impl) or [m for m, _ in impl] != p.list_decay_mother_names():
                 res.violation("number_of_decays / list_decay_mother_names disagree with the stored tables", case, clause="mothers")
